@@ -311,6 +311,7 @@ type BlockSpec struct {
 	Restart   bool     `json:"restart,omitempty"`    // the node restarts from its DB before this block
 	OffChain  []Probe  `json:"off_chain,omitempty"`  // off-chain calls made before BeginBlock
 	MidChain  []Probe  `json:"mid_chain,omitempty"`  // off-chain calls made between DeliverTx and EndBlock
+	AfterTx0  []Probe  `json:"after_tx0,omitempty"`  // off-chain calls made right after the first DeliverTx of the block
 	PostChain []Probe  `json:"post_chain,omitempty"` // off-chain calls made after Commit
 }
 
@@ -337,6 +338,9 @@ func (b BlockSpec) String() string {
 	}
 	for _, pr := range b.OffChain {
 		s += " pre:" + pr.String()
+	}
+	for _, pr := range b.AfterTx0 {
+		s += " tx0:" + pr.String()
 	}
 	for _, pr := range b.MidChain {
 		s += " mid:" + pr.String()
@@ -653,6 +657,11 @@ func (r *replica) runBlock(b BlockSpec) BlockRes {
 			tr.Raw = hex.EncodeToString(tx)
 		}
 		br.Txs = append(br.Txs, tr)
+		if i == 0 {
+			for _, p := range b.AfterTx0 {
+				br.Probes = append(br.Probes, "tx0:"+r.runProbe(p))
+			}
+		}
 		_ = batch.Add(&tmtypes.TxResult{Height: h, Index: uint32(i), Tx: tx, Result: res})
 		if t := b.Txs[i]; res.Code == 0 && t.Kind == "send" && strings.HasPrefix(t.Args["to"], "module:") {
 			if r.donated == nil {
